@@ -19,8 +19,8 @@ TREE = {
     "/w/proj/gen": ([], ["keep.py", "other.py"]),
     "/w/proj/_priv": ([], ["p.py"]),
     "/w/proj/.hid": ([], ["h.py"]),
-    "/w/proj/sub": (["deep", ".cache"], ["s.py", ".s.py", "skip2.py"]),
-    "/w/proj/sub/deep": ([], ["x.py"]),
+    "/w/proj/sub": (["deep", ".cache"], ["s.py", ".s.py", "skip2.py", "Rakefile"]),     # Rakefile: a lexer chosen by the whole name, unsupported language
+    "/w/proj/sub/deep": ([], ["x.py", "a.py"]),          # a.py: the same base name as the file at the root
     "/w/proj/sub/.cache": ([], ["c.py"]),
     "/w/proj/build": ([], ["gen.py"]),
 }
@@ -94,6 +94,9 @@ class Lab:
         self.analysed: list = []
         self.printed: list = []      # arguments of print / typer.echo calls
         self._measuring = False
+        self.check_result = None
+        self.measure_by_path = None     # optional: (interpreter, callee, absolute path) -> measurements of that file
+        it_holder = [None]
         mf = prj.maybe_func("codelimit.common.Scanner:scan_file")      # follows a re-export to wherever the function lives now
         self.measure_qual = mf.qual if mf is not None else None
         self.calls: list = []          # (function, arguments) of lex / scan_file / CheckResult.add in deep mode
@@ -124,6 +127,8 @@ class Lab:
                 self.analysed.append(self.vfs.abs(path_of_tokens(toks)))
             if not self.deep:
                 return []
+            if self.measure_by_path is not None and toks is not None:
+                return self.measure_by_path(it_holder[0], f, self.vfs.abs(path_of_tokens(toks)))
             if self.measured is not None:
                 return list(self.measured)
             m1 = Sym("measurement", unit_name="f", value=40, start=Sym("loc", line=1, column=1), end=Sym("loc", line=41, column=1))
@@ -131,6 +136,7 @@ class Lab:
             return [m1, m2]
 
         def hook(it, kind, f, args, kwargs, node, cur):
+            it_holder[0] = it
             r = fs(it, kind, f, args, kwargs, node, cur)
             if r is not NotImplemented:
                 return r
@@ -162,6 +168,7 @@ class Lab:
                     return measured_result(f, args, kwargs)
                 if q.endswith("CheckResult.add") and self.deep:
                     self.calls.append(("add", list(args), dict(kwargs)))
+                    self.check_result = f.self_obj
                 if (q.endswith("CheckResult.report") or q.endswith("CheckResult.add")) and not self.deep:
                     return None
             if isinstance(f, tuple) and f and f[0] == "external":
